@@ -169,11 +169,35 @@ def r14b(ctx, classes):
             if g is None:
                 raise AnalysisError(f'{ci.name}.{name} not found')
             vals = []
+            last_vals = []
+            from ..util import Inliner
+            own_props = {n_ for k in repo.mro(ci) if hasattr(k, 'getters') for n_ in k.getters
+                         if n_ not in ('clip_inf', 'clip_sup', 'device')}
+            inl = Inliner(repo, {SELF: ci}, depth=3, only=own_props)
+            LAST = ('attr', SELF, 'last_layer')
+
+            def world(t, val):
+                # resolve conditional expressions on self.last_layer
+                if isinstance(t, tuple):
+                    if t and t[0] == 'ifexp':
+                        c = t[1]
+                        neg = c[0] == 'un' and c[1] == 'not'
+                        if (c[2] if neg else c) == LAST:
+                            return world(t[3] if (val == neg) else t[2], val)
+                    return tuple(world(x, val) for x in t)
+                return t
             for p in returning(paths(repo, g)):
-                last = any(a == ('attr', SELF, 'last_layer') and v for a, v in p.assumptions)
+                decided = [v for a, v in p.assumptions if a == LAST]
+                for is_last in ((decided[0],) if decided else (False, True)):
+                    if not is_last:
+                        continue
+                    t2 = p.retval
+                    t2 = t2[2][0] if is_call(t2, 'torch.tensor') and t2[2] else t2
+                    last_vals.append(strip_cast(world(inl.expand(strip_cast(t2)), True)))
+                last = bool(decided) and decided[0]
                 if last:
-                    continue        # final-layer bounds are not used for requantisation
-                t = p.retval
+                    continue        # judged below (final-layer world)
+                t = world(inl.expand(p.retval), False)
                 if t[0] == 'sub' and t[1][0] == 'attr':
                     # memoised bound: judge the value stored under that key (staleness of the
                     # memo itself is judged by R14g)
@@ -190,6 +214,21 @@ def r14b(ctx, classes):
                    f'{name} is {[short(v, 80) for v in vals]}, expected {short(want, 80)} '
                    f'({"unsigned" if be == "MATCH" else "offset-signed"} activations of the '
                    f'output precision)', where(g))
+            has_last = any(e.kind == 'setattr' and e.data[0] == SELF and e.data[1] == 'last_layer'
+                           for q in paths(repo, ci.methods['__init__']) for e in q.events)
+            if be == 'MAUPITI' and name == 'clip_inf' and last_vals and has_last:
+                # the final layer does not clip, but its clip_inf is the offset its INPUT
+                # activations carry (applied by the previous layer) and enters _zero_point
+                prec_in = ('attr', ('attr', SELF, 'in_quantizer'), 'precision')
+                want_l = ('un', 'neg', ('bin', '**', two, ('bin', '-', prec_in, ('const', 1))))
+                okl = all(_pow_equal(strip_cast(v), want_l) for v in last_vals)
+                ctx.ob('R14b', f'{ci.name}.{name} of the final layer', okl,
+                       'offset of the input activations: -2**(in precision - 1)' if okl else
+                       f'for the final layer clip_inf is {[short(v, 80) for v in last_vals][:2]}, '
+                       f'expected {short(want_l, 80)}: the zero point compensates the offset of '
+                       f'the input activations, which the previous layer produced with its '
+                       f'output (= this layer\'s input) precision; with another precision the '
+                       f'final output is not the real-valued logits', where(g))
         if be == 'MAUPITI':
             init = ci.methods['__init__']
             ci_t = ('attr', SELF, 'clip_inf')
